@@ -127,7 +127,7 @@ func nativeReplay(e *sym.Engine, spec *Spec, pkg string, tapes []string, tries i
 	for try := 0; try < tries && len(pending) > 0; try++ {
 		cmd := exec.Command("timeout", "600", "go", "test", "-vet=off", "-count=1", "-overlay", ovPath, "-run", "^TestVReplay$", "-v", "./"+pkg)
 		cmd.Dir = repoDir
-		cmd.Env = append(os.Environ(), "GOFLAGS=-mod=mod", "GOPROXY=off", "GOSUMDB=off", "GOTOOLCHAIN=local", "VTAPES="+strings.Join(pending, ","))
+		cmd.Env = append(os.Environ(), "GOFLAGS=-mod=mod", "GOPROXY=off", "GOSUMDB=off", "GOTOOLCHAIN=local", "VTAPES="+strings.Join(pending, ","), "VACTIVE="+spec.ID+".")
 		var out bytes.Buffer
 		cmd.Stdout = &out
 		cmd.Stderr = &out
@@ -208,7 +208,7 @@ func validateEncoder(rr *runResult, n int) (int, []string, []string) {
 		byPkg[pkg] = append(byPkg[pkg], path)
 		tapeOf[path] = tp
 	}
-	w, err := sym.NewWorker(rr.engine, sym.Options{Solver: "z3", LoopBound: 1 << 20, MaxSteps: 50000000})
+	w, err := sym.NewWorker(rr.engine, sym.Options{Solver: "z3", LoopBound: 1 << 20, MaxSteps: 50000000, AssertPrefix: rr.spec.ID + "."})
 	if err != nil {
 		return 0, nil, []string{"cannot start worker: " + err.Error()}
 	}
